@@ -1,5 +1,6 @@
 import MorfuseModel.Emit.Model
 import MorfuseModel.Emit.Check
+import MorfuseModel.Emit.SimEmit
 import Driver.Util
 /-!
 Line protocol of the `Emit` model (C01):
@@ -123,6 +124,7 @@ def errName : Err → String
   | .notAllowed => "CompileError:NotAllowed"
   | .duplicateLabel => "CompileError:DuplicateLabel"
   | .unknownNode => "CompileError:UnknownNodeType"
+  | .tooManyParameters => "CompileError:TooManyParameters"
   | .ub u => "UB:" ++ (reprStr u)
 
 /-- insertion sort by key -/
@@ -141,15 +143,16 @@ def answer (dev : Bool) (root : Node) : String :=
     | .error e => "err:" ++ errName e
   let wf := if root.wf then "1" else "0"
   let cert := if certify dev root then "1" else "0"
+  let plain := if root.plain then "1" else "0"
   match compile dev root with
-  | .error e => s!"out={errName e} cnt={cnt} wf={wf} cert={cert}"
+  | .error e => s!"out={errName e} cnt={cnt} wf={wf} cert={cert} plain={plain}"
   | .ok r =>
     let s := r.final
     let code := if s.progLen = 0 then "-" else String.join ((List.range s.progLen).map fun i => hex2 (s.buf.get i))
     let stk := s.maxInt + 9 * s.maxExt + 1
     let sw := "[" ++ ",".intercalate (s.switches.toList.map showSet) ++ "]"
     let ca := "[" ++ ",".intercalate (s.catches.toList.map fun c => s!"{c.tryStart}:{c.tryEnd}:{showSet c.set}") ++ "]"
-    s!"out=ok pl={s.progLen} wr={s.pos} ar={s.arenaUsed}/{s.arenaSize} nsw={s.swCont.cap.getD 0} nca={s.caCont.cap.getD 0} osw={s.swCont.num} oca={s.caCont.num} tl={s.mainSet.tableLength} stk={stk} code={code} lab={showSet s.mainSet} sw={sw} ca={ca} cnt={cnt} wf={wf} cert={cert}"
+    s!"out=ok pl={s.progLen} wr={s.pos} ar={s.arenaUsed}/{s.arenaSize} nsw={s.swCont.cap.getD 0} nca={s.caCont.cap.getD 0} osw={s.swCont.num} oca={s.caCont.num} tl={s.mainSet.tableLength} stk={stk} code={code} lab={showSet s.mainSet} sw={sw} ca={ca} cnt={cnt} wf={wf} cert={cert} plain={plain}"
 
 def step (_ : Unit) (t : List String) : Unit × String :=
   match t with
